@@ -23,6 +23,7 @@ pub enum Ev {
   Realloc(usize, usize, usize),
   Dealloc(usize, usize),
   Fail(usize, usize),
+  FailRealloc(usize, usize, usize, usize, usize),
 }
 
 const MAXB: usize = 1 << 14;
@@ -31,6 +32,9 @@ const RED: usize = 64;
 
 pub static mut TRACK: i32 = 0;
 pub static mut PANIC_SKIP: bool = false;
+/// a tracked request has been refused: minivec is on its way to handle_alloc_error (abort); what the
+/// runtime allocates for its message and backtrace from here on is not minivec's
+pub static mut DYING: bool = false;
 static mut BLOCKS: [Blk; MAXB] = [Blk { ptr: 0, size: 0, align: 0, live: false, base: 0, total: 0 }; MAXB];
 static mut NBLK: usize = 0;
 static mut EVENTS: [Ev; MAXE] = [Ev::Alloc(0, 0); MAXE];
@@ -117,11 +121,12 @@ unsafe impl GlobalAlloc for Checking {
   unsafe fn alloc(&self, l: Layout) -> *mut u8 {
     // minivec's blocks always carry an alignment of at least align_of::<usize>(); byte-aligned
     // requests made while a call is on the stack are message strings of the panic runtime
-    if TRACK <= 0 || PANIC_SKIP || l.align() < 8 {
+    if TRACK <= 0 || PANIC_SKIP || DYING || l.align() < 8 {
       return System.alloc(l);
     }
     let p = tracked_alloc(l.size(), l.align());
     if p.is_null() {
+      DYING = true;
       log(Ev::Fail(l.size(), l.align()));
     } else {
       log(Ev::Alloc(l.size(), l.align()));
@@ -154,6 +159,17 @@ unsafe impl GlobalAlloc for Checking {
   unsafe fn realloc(&self, ptr: *mut u8, l: Layout, new_size: usize) -> *mut u8 {
     match find(ptr as usize) {
       None => System.realloc(ptr, l, new_size),
+      Some(_) if DYING => {
+        // the runtime resizing one of its own buffers that happened to be recorded: plain realloc semantics
+        let i = find(ptr as usize).unwrap();
+        let b = BLOCKS[i];
+        let p = System.alloc(Layout::from_size_align_unchecked(new_size, l.align()));
+        if !p.is_null() {
+          let n = if b.size < new_size { b.size } else { new_size };
+          std::ptr::copy_nonoverlapping(b.ptr as *const u8, p, n);
+        }
+        p
+      }
       Some(i) => {
         let b = BLOCKS[i];
         if !b.live {
@@ -168,7 +184,21 @@ unsafe impl GlobalAlloc for Checking {
         // the new block has the alignment the caller quotes (that is what a real allocator would assume)
         let p = tracked_alloc(new_size, l.align());
         if p.is_null() {
-          log(Ev::Fail(new_size, l.align()));
+          // what the block's header says at the moment the request is refused
+          DYING = true;
+          let h = if b.size >= 24 { *(b.ptr as *const [usize; 3]) } else { [0, 0, 0] };
+          log(Ev::FailRealloc(new_size, l.align(), h[0], h[1], h[2]));
+          // also said at once on stdout: the process is about to abort
+          {
+            use std::io::Write;
+            let t = TRACK;
+            TRACK = 0;
+            let o = std::io::stdout();
+            let mut o = o.lock();
+            let _ = writeln!(o, "ALLOCFAIL f{}:{}:h{}/{}/{}", new_size, l.align(), h[0], h[1], h[2]);
+            let _ = o.flush();
+            TRACK = t;
+          }
           return p;
         }
         log(Ev::Realloc(l.size(), l.align(), new_size));
@@ -242,5 +272,6 @@ pub fn reset() {
     LIMIT = 1 << 30;
     TRACK = 0;
     PANIC_SKIP = false;
+    DYING = false;
   }
 }
